@@ -416,6 +416,15 @@ example :
     progSets [.updateArgs [str "x"], .setArgs [str "y"]] = [.args] ∧
     progClears [.setArgs [str "y"], .updateArgs [str "x"]] = [.args] := by decide
 
+/-- **Hooks.** The message carries every hook the program's `AddHooks` calls were given, kind by
+    kind in call order (hooks are not owned: the collector appends every plugin's). -/
+theorem builder_hooks (prog : List AOp) : (runA prog).hooks.getD {} = progHooks prog := foldA_hooks prog {}
+
+example :
+    progHooks [.addHooks { prestart := [{ path := str "/a" }] }, .addEnv (str "X") [],
+               .addHooks { prestart := [{ path := str "/b" }], poststop := [{ path := str "/c" }] }]
+      = { prestart := [{ path := str "/a" }, { path := str "/b" }], poststop := [{ path := str "/c" }] } := by decide
+
 /-- `AddHooks(nil)`: the handler does not return (nil pointer dereference in adjustment.go:99) -/
 theorem builder_addHooks_nil_faults (pre : List AOp) (post : List ACall) :
     runCalls (pre.map .op ++ .addHooksNil :: post) = none := by
